@@ -1088,8 +1088,12 @@ pub mod __macro_support {
                 Ordering::Acquire,
             ) {
                 Ok(_) => {
+                    #[cfg(feature = "verif-hooks")]
+                    tracing_core::verif::point(tracing_core::verif::site::MC_REG_WON);
                     // Okay, we advanced the state, try to register the callsite.
                     crate::callsite::register(self.registration);
+                    #[cfg(feature = "verif-hooks")]
+                    tracing_core::verif::point(tracing_core::verif::site::MC_BEFORE_REGISTERED);
                     self.register.store(Self::REGISTERED, Ordering::Release);
                 }
                 // Great, the callsite is already registered! Just load its
@@ -1102,6 +1106,8 @@ pub mod __macro_support {
                         Self::REGISTERING,
                         "weird callsite registration state"
                     );
+                    #[cfg(feature = "verif-hooks")]
+                    tracing_core::verif::point(tracing_core::verif::site::MC_REG_LOST);
                     // Just hit `enabled` this time.
                     return Interest::sometimes();
                 }
@@ -1125,6 +1131,8 @@ pub mod __macro_support {
         /// without warning.
         #[inline]
         pub fn interest(&'static self) -> Interest {
+            #[cfg(feature = "verif-hooks")]
+            tracing_core::verif::point(tracing_core::verif::site::MC_INTEREST_LOADED);
             match self.interest.load(Ordering::Relaxed) {
                 Self::INTEREST_NEVER => Interest::never(),
                 Self::INTEREST_SOMETIMES => Interest::sometimes(),
